@@ -107,7 +107,7 @@ class _Cur:
         return self.take(n)
 
 
-def decode_batch(data: bytes, pos: int = 0) -> tuple[dict, int]:
+def decode_batch(data: bytes, pos: int = 0, lenient_header_keys: bool = False) -> tuple[dict, int]:
     """Strict decode of one batch at pos; returns (batch, end position)."""
     c = _Cur(data, pos)
     b: dict = {}
@@ -147,6 +147,8 @@ def decode_batch(data: bytes, pos: int = 0) -> tuple[dict, int]:
         if hn < 0:
             raise BadBatch("negative header count")
         rec["headers"] = [(rc.opt(), rc.opt()) for _ in range(hn)]
+        if not lenient_header_keys and any(hk is None for hk, _ in rec["headers"]):
+            raise BadBatch("negative header key length (header keys are not nullable)")
         if rc.pos != rend:
             raise BadBatch("record length does not match its content")
         recs.append(rec)
